@@ -1,6 +1,7 @@
 package vs
 
 import (
+	"os"
 	"reflect"
 	"sort"
 	"unsafe"
@@ -23,7 +24,7 @@ import (
 // can be observed.
 
 // MemOn switches the bookkeeping on (the default under a scheduler).
-var MemOn = true
+var MemOn = os.Getenv("VS_MEM") != "0"
 
 const memMaxWords = 24
 
@@ -128,14 +129,29 @@ func memAddr(p func() any) (v any) {
 }
 
 func (s *Sched) memAccess(site string, write bool, addr, size uintptr, keep any) {
-	if s.MemPoints != nil && s.MemPoints[site] {
+	// a racing site is a scheduling point, and so is the first announced access of
+	// the same thread at another site after it (the place "just after" the racing
+	// statement)
+	if s.MemPoints != nil {
 		t := s.cur
-		t.memPoint = true
-		Point("mem "+site, nil)
-		t.memPoint = false
-		if s.abort {
-			return
+		// the announcements of one statement follow each other directly: one point for all of them
+		racing := s.MemPoints[site] && t.memSeq != site
+		after := t.memAfter != "" && t.memAfter != site
+		if racing || after {
+			if after {
+				t.memAfter = ""
+			}
+			if racing {
+				t.memAfter = site
+			}
+			t.memPoint = true
+			Point("mem "+site, nil)
+			t.memPoint = false
+			if s.abort {
+				return
+			}
 		}
+		t.memSeq = site
 	}
 	t := s.cur
 	if s.mem == nil {
